@@ -1154,6 +1154,7 @@ PARTS = z3.Function("PARTS", U, U)
 NPARTS = z3.Function("NPARTS", U, IntS)
 PART = z3.Function("PART", U, IntS, U)        # i-th component
 PPREFIX = z3.Function("PPREFIX", U, IntS, U)  # path of the first k components
+DOT = z3.Const("str_dot", U)                   # Path() == Path('.'): no components
 
 
 class PathModel2(Model):
@@ -1185,21 +1186,46 @@ class PathModel2(Model):
             # the directory of a file inside the root that is not the root
             # itself is inside (or is) the root
             z3.ForAll([a, b], z3.Implies(
-                z3.And(z3.Not(ISABS(b)), z3.Not(HASDD(b))),
+                z3.And(z3.Not(ISABS(b)), z3.Not(HASDD(b)), NPARTS(b) >= 1),
                 z3.Or(INSIDE(a, PPARENT(PJOIN(a, b))),
                       PPARENT(PJOIN(a, b)) == a)),
                 patterns=[PPARENT(PJOIN(a, b))]),
             z3.ForAll([a], INSIDE(a, a), patterns=[INSIDE(a, a)]),
+            # a / b == a / c  =>  b == c for relative b, c (the parts of a
+            # join are the parts of the operands, one after the other)
+            z3.ForAll([a, b, c], z3.Implies(
+                z3.And(z3.Not(ISABS(b)), z3.Not(ISABS(c)),
+                       PJOIN(a, b) == PJOIN(a, c)), b == c),
+                patterns=[z3.MultiPattern(PJOIN(a, b), PJOIN(a, c))]),
+            # ... and a / c == b / c  =>  a == b (relative c)
+            z3.ForAll([a, b, c], z3.Implies(
+                z3.And(z3.Not(ISABS(c)), PJOIN(a, c) == PJOIN(b, c)), a == b),
+                patterns=[z3.MultiPattern(PJOIN(a, c), PJOIN(b, c))]),
             # the first component of a join is the first component of its
             # left operand (for a relative right operand)
-            z3.ForAll([a, b], z3.Implies(z3.Not(ISABS(b)),
-                                         PART(PJOIN(a, b), 0) == PART(a, 0)),
-                      patterns=[PJOIN(a, b)]),
+            z3.ForAll([a, b], z3.Implies(
+                z3.And(z3.Not(ISABS(b)), NPARTS(a) >= 1),
+                PART(PJOIN(a, b), 0) == PART(a, 0)),
+                patterns=[PJOIN(a, b)]),
             # the last component of a join is the last component of its
             # (relative) right operand
-            z3.ForAll([a, b], z3.Implies(z3.Not(ISABS(b)),
-                                         PNAME(PJOIN(a, b)) == PNAME(b)),
-                      patterns=[PJOIN(a, b)]),
+            # (a right operand with at least one component: `x / Path('.')`
+            # is x, whose name is the name of x)
+            z3.ForAll([a, b], z3.Implies(
+                z3.And(z3.Not(ISABS(b)), NPARTS(b) >= 1),
+                PNAME(PJOIN(a, b)) == PNAME(b)),
+                patterns=[PJOIN(a, b)]),
+            # number of components; the only path without components is '.'
+            z3.ForAll([a], NPARTS(a) >= 0, patterns=[NPARTS(a)]),
+            z3.ForAll([a], (NPARTS(a) == 0) == (a == DOT),
+                      patterns=[NPARTS(a)]),
+            z3.ForAll([a, b], z3.Implies(
+                z3.Not(ISABS(b)),
+                NPARTS(PJOIN(a, b)) == NPARTS(a) + NPARTS(b)),
+                patterns=[PJOIN(a, b)]),
+            z3.ForAll([a], PJOIN(a, DOT) == a, patterns=[PJOIN(a, DOT)]),
+            z3.ForAll([a], PJOIN(DOT, a) == a, patterns=[PJOIN(DOT, a)]),
+            z3.And(z3.Not(ISABS(DOT)), z3.Not(HASDD(DOT)), PNAME(DOT) == DOT),
         ]
 
     def getattr(self, st, obj, attr, line):
